@@ -62,6 +62,14 @@ SELECTED = [
     ("_is_threaded_cpython", "packaging.tags", "_is_threaded_cpython"),
     ("compatible_tags", "packaging.tags", "compatible_tags"),
     ("cpython_tags", "packaging.tags", "cpython_tags"),
+    ("Specifier._compare_less_than", "packaging.specifiers", "Specifier._compare_less_than"),
+    ("Specifier._compare_greater_than", "packaging.specifiers", "Specifier._compare_greater_than"),
+    ("Specifier._compare_less_than_equal", "packaging.specifiers", "Specifier._compare_less_than_equal"),
+    ("Specifier._compare_greater_than_equal", "packaging.specifiers", "Specifier._compare_greater_than_equal"),
+    ("Specifier._compare_arbitrary", "packaging.specifiers", "Specifier._compare_arbitrary"),
+    ("Specifier._compare_equal", "packaging.specifiers", "Specifier._compare_equal"),
+    ("Specifier._compare_not_equal", "packaging.specifiers", "Specifier._compare_not_equal"),
+    ("Specifier._compare_compatible", "packaging.specifiers", "Specifier._compare_compatible"),
 ]
 
 # classes whose instances the translated code handles as records `PyVal.obj <class name> <fields>`; attribute access on
@@ -70,7 +78,7 @@ SELECTED = [
 # subclass overrides the attribute
 TRACKED = [
     ("packaging.version", "_Version"), ("packaging.version", "_BaseVersion"), ("packaging.version", "Version"),
-    ("packaging.version", "_TrimmedRelease"), ("packaging.tags", "Tag"),
+    ("packaging.version", "_TrimmedRelease"), ("packaging.tags", "Tag"), ("packaging.specifiers", "Specifier"),
 ]
 
 LEAN_KEYWORDS = {
@@ -91,6 +99,8 @@ class Unsupported(Exception):
 
 def lname(n: str) -> str:
     """a Python identifier as a Lean identifier"""
+    if n == "_":
+        return "_py_"
     if n in LEAN_KEYWORDS or not n.isascii():
         return "«" + n + "»"
     return n
@@ -135,6 +145,7 @@ METHODS = {
     "startswith": ("PyRt.str_startswith", 1), "endswith": ("PyRt.str_endswith", 1), "join": ("PyRt.str_join", 1),
     "split": ("PyRt.str_split", 1), "strip": ("PyRt.str_strip", 0), "rpartition": ("PyRt.str_rpartition", 1),
     "partition": ("PyRt.str_partition", 1), "replace": ("PyRt.str_replace", 2), "group": ("PyRt.match_group", 1),
+    "groups": ("PyRt.match_groups", 0),
 }
 MUTATORS = {"append": ("PyRt.list_append", 1), "extend": ("PyRt.list_extend", 1), "insert": ("PyRt.list_insert", 2),
             "remove": ("PyRt.list_remove", 1)}
@@ -149,6 +160,21 @@ EXTERNAL_CALLS = {"platform_tags", "sysconfig.get_config_var"}
 EXTERNAL_HASATTR = {("sys", "gettotalrefcount")}
 DROPPED_CALLS = {"logger.debug", "logger.info", "logger.warning"}          # logging: no effect on the result
 SCALAR_RETURNS = {"bool", "str", "int", "None"}
+# constructors that are run-time primitives (the class's `__init__` is not translated): (module, class) -> Lean function
+# taking the class name and the arguments
+PRIMITIVE_INITS = {("packaging.version", "Version", "__init__"): "PyRt.mkVersion"}
+# compiled patterns (module globals) the run-time has a matcher for, by pattern text
+SUPPORTED_SEARCH_PATTERNS = {r"^([0-9]+)((?:a|b|c|rc)[0-9]+)$"}
+# reflective helpers that the translator evaluates at generation time; guarded by the exact source of the helper
+PARTIAL_EVAL_GUARDS = {
+    "Specifier._get_operator": (
+        "def _get_operator(self, op: str) -> CallableOperator:\n"
+        "    operator_callable: CallableOperator = getattr(\n"
+        "        self, f\"_compare_{self._operators[op]}\"\n"
+        "    )\n"
+        "    return operator_callable\n"),
+}
+_RICH = {ast.Lt: "__lt__", ast.LtE: "__le__", ast.Gt: "__gt__", ast.GtE: "__ge__", ast.Eq: "__eq__", ast.NotEq: "__ne__"}
 # itertools.<name> -> run-time function taking (Lean function, PyVal)
 ITERTOOLS_FN = {"takewhile": "PyRt.takewhile", "dropwhile": "PyRt.dropwhile"}
 # contexts in which a mutated (owned) list may be read without creating an alias: builtin consumers
@@ -233,6 +259,12 @@ class Fn:
             c = self.static_class(e.value)
             if c is not None:
                 return self.ctx.field_class(c, e.attr)
+        if isinstance(e, ast.IfExp):
+            a, b = self.static_class(e.body), self.static_class(e.orelse)
+            if a is not None and b is not None:
+                for k in a.__mro__:
+                    if self.ctx.is_tracked(k) and k in b.__mro__:
+                        return k
         return None
 
     def param_assigned_names(self):
@@ -780,6 +812,9 @@ class Fn:
         if isinstance(e, ast.BoolOp) and all(self.is_pure(v) for v in e.values):
             op = " && " if isinstance(e.op, ast.And) else " || "
             return "(" + op.join(self.cond(v) for v in e.values) + ")"
+        if isinstance(e, ast.Compare) and len(e.ops) == 1 and self.static_class(e.left) is not None \
+                and type(e.ops[0]) in _RICH:
+            return f"PyRt.truthy {self.val(e)}"
         if isinstance(e, ast.Compare) and len(e.ops) == 1:
             l, r, op = e.left, e.comparators[0], e.ops[0]
             if isinstance(op, (ast.Is, ast.IsNot)) and isinstance(r, ast.Constant) and r.value is None:
@@ -901,6 +936,8 @@ class Fn:
             if id(e) in self.maybe_unbound:
                 return False, f"PyRt.bound {lname(n)}"
             return True, lname(n)
+        if n == "NotImplemented":
+            return True, "PyVal.notImpl"
         if n in EXTERNAL_READS and n in self.globals:
             return False, f'PyRt.env_get {self.use_env()} "{n}"'
         g = self.resolve_global(n)
@@ -941,6 +978,8 @@ class Fn:
             return ("sentinel", "PyVal.posInf")
         if mod.endswith("_structures") and tname == "NegativeInfinityType":
             return ("sentinel", "PyVal.negInf")
+        if hasattr(v, "registry") and hasattr(v, "dispatch"):
+            return ("other", v)                   # functools.singledispatch function
         if inspect.isfunction(v):
             ln = self.ctx.lean_name_of(v)
             if ln is not None:
@@ -974,8 +1013,35 @@ class Fn:
             return f"(do {first}; if PyRt.truthy {t} then pure {t} else (do {rest}))"
         return False, build(0)
 
+    def rich(self, l, op, r):
+        """`l op r` when l is an instance of a tracked class with a Python-level rich-comparison method: M PyVal term"""
+        if type(op) not in _RICH:
+            return None
+        c = self.static_class(l)
+        if c is None:
+            return None
+        name = _RICH[type(op)]
+        if not inspect.isfunction(self.ctx.lookup(c, name)):
+            return None
+        lv = self.val(l)
+        rv = self.val(r)
+        def mk(impl):
+            if not inspect.isfunction(impl):
+                raise Unsupported(f"{name} is not a plain function in a subclass")
+            fn = self.ctx.require(impl)
+            return lambda x: self.call_selected(fn, [x, rv])
+        call = self.dispatch(c, name, lv, mk)
+        if isinstance(op, ast.Eq):
+            return f"(do pure (PyRt.eqResult false (← {call})))"
+        if isinstance(op, ast.NotEq):
+            return f"(do pure (PyRt.eqResult true (← {call})))"
+        return f"(do PyRt.cmpResult (← {call}))"
+
     def compare(self, e):
         if len(e.ops) == 1:
+            rc = self.rich(e.left, e.ops[0], e.comparators[0])
+            if rc is not None:
+                return False, rc
             l, r, op = e.left, e.comparators[0], e.ops[0]
             if isinstance(op, (ast.Is, ast.IsNot)):
                 if isinstance(r, ast.Constant) and r.value is None:
@@ -1033,8 +1099,51 @@ class Fn:
             return "PyRt.mul"
         raise Unsupported("binary operator " + type(op).__name__)
 
-    def closure(self, target, body_fn):
+    _simple_bound: frozenset = frozenset()
+
+    def hint(self, e):
+        """the evaluated type annotation of expression e, where one is available (property return types, named-tuple
+        fields, parameters); else None"""
+        import typing
+        try:
+            if isinstance(e, ast.Attribute):
+                c = self.static_class(e.value)
+                if c is None:
+                    return None
+                impl = self.ctx.lookup(c, e.attr)
+                if isinstance(impl, property):
+                    return typing.get_type_hints(impl.fget).get("return")
+                return typing.get_type_hints(c).get(e.attr)
+            if isinstance(e, ast.Name) and e.id in self.params() and e.id not in self.param_assigned_names():
+                return typing.get_type_hints(self.pyfunc).get(e.id)
+        except Exception:
+            return None
+        return None
+
+    def elem_simple(self, iter_expr):
+        """are the items of this iterable numbers / strings / None for sure (by its annotation)?"""
+        import typing
+        h = self.hint(iter_expr)
+        if h is None:
+            return False
+        def leaves(t):
+            args = typing.get_args(t)
+            if not args:
+                return [t]
+            return [x for a in args for x in leaves(a)]
+        return all(t in (int, str, bool, type(None), Ellipsis) for t in leaves(h))
+
+    def closure(self, target, body_fn, simple=False):
         """`fun x => do …` for a comprehension / lambda with the given target; body_fn() -> M PyVal term"""
+        saved_simple = self._simple_bound
+        if simple:
+            self._simple_bound = self._simple_bound | {t.id for t in ast.walk(target) if isinstance(t, ast.Name)}
+        try:
+            return self._closure(target, body_fn)
+        finally:
+            self._simple_bound = saved_simple
+
+    def _closure(self, target, body_fn):
         if isinstance(target, ast.Name):
             names = [target.id]
             self._bound = self._bound + [set(names)]
@@ -1062,11 +1171,12 @@ class Fn:
         if g.is_async:
             raise Unsupported("async comprehension")
         src = self.val(g.iter)
-        f = self.closure(g.target, lambda: self.mval(e.elt))
+        simple = self.elem_simple(g.iter)
+        f = self.closure(g.target, lambda: self.mval(e.elt), simple)
         if not g.ifs:
             return f"PyRt.genexp {f} {src}"
         test = g.ifs[0] if len(g.ifs) == 1 else ast.BoolOp(op=ast.And(), values=list(g.ifs))
-        c = self.closure(g.target, lambda: f"pure (PyVal.bool ({self.cond(test)}))")
+        c = self.closure(g.target, lambda: f"pure (PyVal.bool ({self.cond(test)}))", simple)
         return f"PyRt.genexpIf {f} {c} {src}"
 
     def fn_arg(self, a):
@@ -1180,6 +1290,8 @@ class Fn:
                 self.ctx.need(g[2])
                 args = self.bind_args(g[2], e.args, kws)
                 return False, self.call_selected(g[1], args)
+            if g[0] == "other" and hasattr(g[1], "registry") and hasattr(g[1], "dispatch"):
+                return False, self.singledispatch_call(f.id, g[1], e.args, kws)
             if g[0] == "function" and f.id in EXTERNAL_CALLS and not kws:
                 args = ", ".join(self.val(a) for a in e.args)
                 return False, f'PyRt.env_call {self.use_env()} "{f.id}" [{args}]'
@@ -1189,12 +1301,48 @@ class Fn:
                 return False, self.call_selected(name, args)
             if g[0] == "class" and self.ctx.is_tracked(g[1]):
                 init = self.ctx.lookup(g[1], "__init__")
+                key = (getattr(init, "__module__", ""), getattr(init, "__qualname__", "").split(".")[0], "__init__")
+                if inspect.isfunction(init) and key in PRIMITIVE_INITS:
+                    args = self.bind_args(init, e.args, kws, skip_self=True)
+                    self.ctx.imports.add("PkgModel.PyObj")
+                    return False, f'{PRIMITIVE_INITS[key]} "{g[1].__name__}"' + "".join(" " + a for a in args)
                 if not inspect.isfunction(init):
                     raise Unsupported(f"constructor of {g[1].__name__} without a Python-level __init__")
                 name = self.ctx.require(init)
                 args = self.bind_args(init, e.args, kws, skip_self=True)
                 return False, self.call_selected(name, [f'(PyVal.obj "{g[1].__name__}" [])'] + args)
             raise Unsupported(f"call of {f.id} ({g[0]})")
+        # ---- self._get_operator("<op>")(a, b): the reflective lookup is evaluated now (guarded by the helper's source)
+        if isinstance(f, ast.Call) and isinstance(f.func, ast.Attribute) and f.func.attr == "_get_operator" \
+                and len(f.args) == 1 and isinstance(f.args[0], ast.Constant) and not f.keywords:
+            c = self.static_class(f.func.value)
+            if c is None:
+                raise Unsupported("_get_operator on a value of unknown class")
+            helper = self.ctx.lookup(c, "_get_operator")
+            guard = PARTIAL_EVAL_GUARDS.get(f"{c.__name__}._get_operator")
+            if not inspect.isfunction(helper) or guard is None or textwrap.dedent(inspect.getsource(helper)) != guard:
+                raise Unsupported("_get_operator is not the helper the translator knows how to evaluate")
+            table = self.ctx.lookup(c, "_operators")
+            if not isinstance(table, dict) or f.args[0].value not in table:
+                raise Unsupported("operator table")
+            mname = f"_compare_{table[f.args[0].value]}"
+            recv = self.val(f.func.value)
+            def mk(impl):
+                if not inspect.isfunction(impl):
+                    raise Unsupported(f"{mname} is not a plain function")
+                fn = self.ctx.require(impl)
+                args = self.bind_args(impl, e.args, kws, skip_self=True)
+                return lambda r: self.call_selected(fn, [r] + args)
+            return False, self.dispatch(c, mname, recv, mk)
+        # ---- <compiled pattern global>.search(s)
+        if isinstance(f, ast.Attribute) and isinstance(f.value, ast.Name) and f.value.id not in self.locals \
+                and f.attr in ("search",) and type(self.globals.get(f.value.id)).__name__ == "Pattern" \
+                and len(e.args) == 1 and not kws:
+            pat = self.globals[f.value.id]
+            if pat.pattern not in SUPPORTED_SEARCH_PATTERNS or pat.flags != 32:
+                raise Unsupported(f"compiled pattern {pat.pattern!r} (flags {pat.flags}) has no matcher in the run-time")
+            lit = pat.pattern.replace("\\", "\\\\").replace('"', '\\"')
+            return False, f'PyRt.re_search "{lit}" {self.val(e.args[0])}'
         # ---- itertools.X(...) / itertools.chain.from_iterable(...)
         if isinstance(f, ast.Attribute):
             dotted = _dotted(f)
@@ -1242,6 +1390,36 @@ class Fn:
                 return False, fn + " " + recv + "".join(" " + self.val(a) for a in e.args)
             raise Unsupported(f"method {f.attr}")
         raise Unsupported("call of a computed function")
+
+    def singledispatch_call(self, name, sd, args, kws):
+        """a call of a functools.singledispatch function: dispatch on the run-time class of the first argument over the
+        registered implementations (only `object` and builtin classes of PyVals are supported as keys)"""
+        if not args:
+            raise Unsupported("singledispatch call without a positional argument")
+        impls = []
+        for typ, fn in sd.registry.items():
+            if typ is object:
+                continue
+            if typ.__name__ not in ("str", "int", "list", "tuple", "bool"):
+                raise Unsupported(f"singledispatch on {typ.__name__}")
+            impls.append((typ.__name__, fn))
+        base = sd.registry[object]
+        c = self.static_class(args[0])
+        if c is not None:                          # the class is known: the implementation singledispatch picks for it
+            fn = sd.dispatch(c)
+            nm = self.ctx.require(fn, name=f"{name}__{'object' if fn is base else [k for k, v in impls if v is fn][0]}")
+            return self.call_selected(nm, self.bind_args(fn, args, kws))
+        first = self.val(args[0])
+        t = self.fresh("d")
+        out = f"(do let {t} := {first}; "
+        def one(fn):
+            nm = self.ctx.require(fn, name=f"{name}__{'object' if fn is base else [k for k, v in impls if v is fn][0]}")
+            rest = self.bind_args(fn, [ast.Name(id=t, ctx=ast.Load())] + list(args[1:]), kws, first_is_term=t)
+            return self.call_selected(nm, rest)
+        for tn, fn in impls:
+            out += f'if PyRt.className {t} == "{tn}" then {one(fn)} else '
+        out += one(base) + ")"
+        return out
 
     def call_selected(self, lean_name, args):
         """call of a translated function; the environment is passed on when the callee reads it"""
@@ -1293,6 +1471,8 @@ class Fn:
         """`str(a)` when `a` is an instance of a tracked class that defines `__str__`: an `M PyVal` term, else None"""
         c = self.static_class(a)
         if c is None:
+            # unknown class: `PyRt.str_` / `PyRt.format`, which handle numbers, strings and None and *refuse* objects
+            # (PyRtUnsupported) — fail-stop, so that an object reaching this site shows up as a disagreement
             return None
         impl = self.ctx.lookup(c, "__str__")
         if not inspect.isfunction(impl):
@@ -1304,23 +1484,43 @@ class Fn:
             return lambda r: self.call_selected(fn, [r])
         return self.dispatch(c, "__str__", self.val(a), mk)
 
+    def is_simple_value(self, a):
+        """an expression whose value cannot be an instance of a tracked class (constants, method results on strings …)"""
+        if isinstance(a, (ast.Constant, ast.JoinedStr, ast.BinOp, ast.Compare, ast.BoolOp)):
+            return True
+        if isinstance(a, ast.Name) and (a.id in self.bound_stack()):
+            return a.id in self._simple_bound      # comprehension variable over a tuple of numbers / strings (by annotation)
+        if isinstance(a, ast.Name):
+            for p_ in self.node.args.args + self.node.args.kwonlyargs:
+                if p_.arg == a.id and isinstance(p_.annotation, ast.Name) and p_.annotation.id in ("str", "int", "bool"):
+                    return True
+        if isinstance(a, ast.Subscript):
+            return True
+        return False
+
     def class_names(self, e):
         if isinstance(e, ast.Tuple):
             return [c for x in e.elts for c in self.class_names(x)]
         if isinstance(e, ast.Name):
             g = self.resolve_global(e.id)
             if g[0] == "class":
-                return [g[1].__name__]
+                return [g[1].__name__] + [d.__name__ for d in self.ctx.subclasses(g[1])]
             if g[0] == "builtin" and e.id in ("int", "str", "list", "tuple", "bool"):
                 return [e.id]
         raise Unsupported("class expression")
 
-    def bind_args(self, pyfunc, args, kws, skip_self=False):
+    def bind_args(self, pyfunc, args, kws, skip_self=False, first_is_term=None):
         """positional + keyword arguments of a call of a selected function -> list of PyVal terms (defaults filled in)"""
         sig = inspect.signature(pyfunc)
         names = list(sig.parameters)
         if skip_self:
             names = names[1:]
+        if first_is_term is not None:
+            rest = self.bind_args_named(sig, names[1:], list(args[1:]), kws)
+            return [first_is_term] + rest
+        return self.bind_args_named(sig, names, args, kws)
+
+    def bind_args_named(self, sig, names, args, kws):
         out = {}
         if len(args) > len(names):
             raise Unsupported("too many arguments")
@@ -1445,6 +1645,7 @@ class Ctx:
         self.funcs = []       # (lean name, function object or None, error); grows while dependencies are discovered
         self.deps = {}
         self.current = None
+        self.imports = set()       # extra Lean modules the generated file needs
         self.uses_env = set()      # lean names of functions that take the environment
         self.dispatchers = {}      # name -> Lean definition text
         self.dispatcher_deps = {}
@@ -1523,12 +1724,12 @@ class Ctx:
     def need(self, f):
         self.deps.setdefault(self.current, set()).add(self.objs[id(f)])
 
-    def require(self, f):
+    def require(self, f, name=None):
         """the Lean name of function f, adding it to the functions to translate if it is not selected yet"""
         if id(f) not in self.objs:
             if not (f.__module__ or "").startswith("packaging"):
                 raise Unsupported(f"call of {f.__module__}.{f.__qualname__}")
-            name = f.__qualname__
+            name = name or f.__qualname__
             self.objs[id(f)] = name
             self.funcs.append((name, f, None))
         self.need(f)
@@ -1602,7 +1803,7 @@ def _assemble(ctx, defs, info, arities):
 
     for lean_name, _, _ in ctx.funcs:
         visit(lean_name)
-    out = ["import PkgModel.PyRt",
+    out = ["import PkgModel.PyRt"] + [f"import {m}" for m in sorted(ctx.imports)] + [
            "/-! GENERATED by harness/translators/pysrc.py from the current source of the selected functions — do not edit. -/",
            "set_option linter.unusedVariables false",
            "namespace Gen.PySrc", "open PyRt", ""]
@@ -1625,7 +1826,7 @@ def _assemble(ctx, defs, info, arities):
         call = n + (" (PyRt.envOf e)" if n in ctx.uses_env else "") + "".join(f" a{i}" for i in range(k))
         pats = ", ".join((["e"] if n in ctx.uses_env else []) + [f"a{i}" for i in range(k)])
         kk = k + (1 if n in ctx.uses_env else 0)
-        rows.append(f'  ("{n}", {kk}, fun args => match args with | [{pats}] => {call} | _ => throw "PySrcArity")')
+        rows.append(f'  ("{n}", {kk}, fun (args : List PyVal) => (match args with | [{pats}] => {call} | _ => throw "PySrcArity" : M PyVal))')
     out.append("  [" + ",\n  ".join(r.strip() for r in rows) + "]")
     out.append("")
     out.append("end Gen.PySrc")
